@@ -171,8 +171,8 @@ theorem runPass_keepsIf (OK : List Instr → Prop) (Q : Seg → Prop) (hQ : Acti
 /-- the property survives a reversal of the stream -/
 def ReverseKeeps (Q : Seg → Prop) : Prop := ∀ (s : Seg) (mark : Nat → Bool), Q s → Q (s.reverseSlots mark)
 
-theorem runPassDir_keepsIf (OK : List Instr → Prop) (Q : Seg → Prop) (hQ : ActionKeepsIf OK Q) (hR : ReverseKeeps Q) (p : PassT) (hp : PassOK OK p) (c : Ctx) (fuel : Nat) (h : Q c.seg) {c' : Ctx}
-    (e : runPassDir p c fuel = .ok (some c')) : Q c'.seg := by
+theorem runPassDir_keepsIf (OK : List Instr → Prop) (Q : Seg → Prop) (hQ : ActionKeepsIf OK Q) (hR : ReverseKeeps Q) (p : PassT) (hp : PassOK OK p) (c : Ctx) (fuel : Nat) (ar : Bool) (h : Q c.seg) {c' : Ctx}
+    (e : runPassDir p c fuel ar = .ok (some c')) : Q c'.seg := by
   unfold runPassDir at e
   split at e
   · cases e; exact h
@@ -192,40 +192,22 @@ theorem runRange_keepsIf (OK : List Instr → Prop) (Q : Seg → Prop) (hQ : Act
     (hpo : ∀ k, k < hi - lo → PassOK OK (passes.getD (lo + k) default)) (h : Q c.seg)
     {c' : Ctx} (e : runRange passes c lo hi fuel = .ok (some c')) : Q c'.seg := by
   unfold runRange at e
-  simp only [] at e
-  have : ∀ (ks : List Nat), (∀ k ∈ ks, PassOK OK (passes.getD (lo + k) default)) →
-      ∀ (acc : Except String (Option Ctx)), (∀ x, acc = .ok (some x) → Q x.seg) →
-      ∀ x, ks.foldl (fun (acc : Except String (Option Ctx)) k =>
-        match acc with
-        | .ok (some c1) =>
-          (match runPassDir (passes.getD (lo + k) default) c1 fuel with
-           | .ok (some c2) => if c2.seg.numGlyphs > 0 ∧ c2.seg.numGlyphs > c.seg.numGlyphs * 64 then .ok none else .ok (some c2)
-           | o => o)
-        | o => o) acc = .ok (some x) → Q x.seg := by
-    intro ks
-    induction ks with
-    | nil => intro _ acc ha x hx; exact ha x hx
-    | cons k rest ih =>
-      intro hk acc ha x hx
-      simp only [List.foldl_cons] at hx
-      refine ih (fun k' hk' => hk k' (List.mem_cons_of_mem _ hk')) _ ?_ x hx
-      intro y hy
-      split at hy
-      · rename_i c1
-        split at hy
-        · rename_i c2 hrp
-          split at hy
-          · cases hy
-          · cases hy
-            exact runPassDir_keepsIf OK Q hQ hR _ (hk k List.mem_cons_self) c1 fuel (ha c1 rfl) hrp
-        · rename_i o hno
-          exact absurd hy (by
-            intro hh
-            exact hno y (by rw [hh]))
-      · rename_i o hno
-        exact absurd hy (fun hh => hno y hh)
-  exact this (List.range (hi - lo)) (fun k hk => hpo k (List.mem_range.mp hk)) (.ok (some (c.beginRange (c.seg.numGlyphs * 64))))
-    (fun x hx => by cases hx; exact h) c' e
+  exact runPasses_ind (fun x => Q x.seg) passes _ true lo hi fuel
+    (fun k hk c1 c2 h1 e1 => runPassDir_keepsIf OK Q hQ hR _ (hpo k hk) c1 fuel true h1 e1) (c.beginRange (c.seg.numGlyphs * 64)) h e
+
+theorem bidiStep_keeps (Q : Seg → Prop) (hR : ReverseKeeps Q) (c : Ctx) (h : Q c.seg) : Q (bidiStep c).seg := by
+  unfold bidiStep
+  split
+  · exact hR _ _ h
+  · exact h
+
+theorem runPhase_keepsIf (OK : List Instr → Prop) (Q : Seg → Prop) (hQ : ActionKeepsIf OK Q) (hR : ReverseKeeps Q) (passes : Array PassT) (bPass : Nat) (c : Ctx)
+    (lo hi : Nat) (dobidi : Bool) (fuel : Nat)
+    (hpo : ∀ k, lo ≤ k → k < hi → PassOK OK (passes.getD k default)) (h : Q c.seg)
+    {c' : Ctx} (e : runPhase passes bPass c lo hi dobidi fuel = .ok (some c')) : Q c'.seg :=
+  runPhase_ind (fun x => Q x.seg) passes bPass lo hi dobidi fuel
+    (fun ar k h1k h2k c1 c2 h1 e1 => runPassDir_keepsIf OK Q hQ hR _ (hpo k h1k h2k) c1 fuel ar h1 e1)
+    (fun x l hx => hx) (fun x hx => bidiStep_keeps Q hR x hx) c h e
 
 /-! the unconditional versions: every rule action keeps the property -/
 
@@ -244,6 +226,10 @@ theorem runPass_keeps (Q : Seg → Prop) (hQ : ActionKeeps Q) (p : PassT) (c : C
 theorem runRange_keeps (Q : Seg → Prop) (hQ : ActionKeeps Q) (hR : ReverseKeeps Q) (passes : Array PassT) (c : Ctx) (lo hi fuel : Nat) (h : Q c.seg)
     {c' : Ctx} (e : runRange passes c lo hi fuel = .ok (some c')) : Q c'.seg :=
   runRange_keepsIf (fun _ => True) Q hQ.toIf hR passes c lo hi fuel (fun _ _ _ _ _ => trivial) h e
+
+theorem runPhase_keeps (Q : Seg → Prop) (hQ : ActionKeeps Q) (hR : ReverseKeeps Q) (passes : Array PassT) (bPass : Nat) (c : Ctx) (lo hi : Nat) (dobidi : Bool) (fuel : Nat)
+    (h : Q c.seg) {c' : Ctx} (e : runPhase passes bPass c lo hi dobidi fuel = .ok (some c')) : Q c'.seg :=
+  runPhase_keepsIf (fun _ => True) Q hQ.toIf hR passes bPass c lo hi dobidi fuel (fun _ _ _ _ _ _ => trivial) h e
 
 theorem reverse_assoc (n : Int) : ReverseKeeps (AssocOK n) := by
   intro s mark h
@@ -554,7 +540,7 @@ theorem shape_assoc (font : Font) (text : List Nat) (fuel : Nat) (dir : Nat) (hn
     · cases e
     · cases e
     · rename_i c1 h1
-      have w1 : AssocOK (text.length : Int) c1.seg := runRange_keeps _ hk (reverse_assoc _) _ _ _ _ _ (initSeg_assoc font text hn dir) h1
+      have w1 : AssocOK (text.length : Int) c1.seg := runPhase_keeps _ hk (reverse_assoc _) _ _ _ _ _ _ _ (initSeg_assoc font text hn dir) h1
       split at e
       · cases e
       · rename_i seg' ci' hre
@@ -565,6 +551,6 @@ theorem shape_assoc (font : Font) (text : List Nat) (fuel : Nat) (dir : Nat) (hn
         · rename_i c2 h2
           simp only [Except.ok.injEq, Option.some.injEq, Prod.mk.injEq] at e
           rw [← e.1]
-          exact runRange_keeps _ hk (reverse_assoc _) _ _ _ _ _ w2 h2
+          exact runPhase_keeps _ hk (reverse_assoc _) _ _ _ _ _ _ _ w2 h2
 
 end GrVerif.Pass
